@@ -1,0 +1,146 @@
+//! Thin public wrappers over crate-private items, for external verification
+//! harnesses. Compiled only with the `verif` cargo feature; contains no logic
+//! of its own beyond type conversions.
+
+use std::borrow::Cow;
+use std::io::{self, BufRead, Read};
+
+use serde::de::Deserializer;
+use serde::ser::Serializer;
+use serde::{Deserialize, Serialize};
+
+use crate::input;
+use crate::yaml::verif as yaml;
+use crate::Format;
+
+/// Runs format detection over a slice.
+pub fn detect_slice(input: &[u8]) -> io::Result<Option<Format>> {
+	crate::detect::detect_format(&mut input::Handle::from_slice(input))
+}
+
+/// Runs format detection over a reader.
+pub fn detect_reader<R: Read>(input: R) -> io::Result<Option<Format>> {
+	crate::detect::detect_format(&mut input::Handle::from_reader(input))
+}
+
+/// A public face for [`input::Handle`].
+pub struct Handle<'i>(input::Handle<'i>);
+
+/// A public face for [`input::Ref`].
+pub struct Ref<'i, 'h>(input::Ref<'i, 'h>);
+
+/// A public face for [`input::Input`].
+pub enum Input<'i> {
+	Slice(Cow<'i, [u8]>),
+	Reader(Box<dyn Read + 'i>),
+}
+
+impl<'i> Handle<'i> {
+	pub fn from_slice(b: &'i [u8]) -> Handle<'i> {
+		Handle(input::Handle::from_slice(b))
+	}
+
+	pub fn from_reader<R: Read + 'i>(r: R) -> Handle<'i> {
+		Handle(input::Handle::from_reader(r))
+	}
+
+	pub fn borrow_mut(&mut self) -> Ref<'i, '_> {
+		Ref(self.0.borrow_mut())
+	}
+
+	pub fn into_input(self) -> Input<'i> {
+		match self.0.into() {
+			input::Input::Slice(b) => Input::Slice(b),
+			input::Input::Reader(r) => Input::Reader(r),
+		}
+	}
+
+	pub fn into_cow(self) -> io::Result<Cow<'i, [u8]>> {
+		self.0.try_into()
+	}
+}
+
+impl Ref<'_, '_> {
+	/// Returns the slice behind a slice-mode reference.
+	pub fn as_slice(&self) -> Option<&[u8]> {
+		match &self.0 {
+			input::Ref::Slice(b) => Some(b),
+			input::Ref::Reader(_) => None,
+		}
+	}
+
+	/// Forwards to [`input::Ref::prefix`].
+	pub fn prefix(&mut self, size_hint: usize) -> io::Result<&[u8]> {
+		self.0.prefix(size_hint)
+	}
+
+	/// Reads from a reader-mode reference; `None` for a slice-mode reference.
+	pub fn read(&mut self, buf: &mut [u8]) -> Option<io::Result<usize>> {
+		match &mut self.0 {
+			input::Ref::Slice(_) => None,
+			input::Ref::Reader(r) => Some(r.read(buf)),
+		}
+	}
+}
+
+/// The outcome of the MessagePack value size calculation: the size, or an
+/// error class (0 truncated, 1 invalid marker, 2 depth limit exceeded).
+pub fn msgpack_next_value_size(input: &[u8], depth_limit: usize) -> Result<usize, u8> {
+	crate::msgpack::verif_next_value_size(input, depth_limit)
+}
+
+/// The depth limit xt applies to MessagePack input.
+pub fn msgpack_depth_limit() -> usize {
+	crate::msgpack::verif_depth_limit()
+}
+
+/// [`yaml::encoding::Encoding::detect`], as an index into
+/// `[Utf8, Utf16Big, Utf32Big, Utf16Little, Utf32Little]`.
+pub fn yaml_encoding_detect(prefix: &[u8]) -> u8 {
+	yaml::encoding_detect(prefix)
+}
+
+/// `Encoder::new` with the encoding given as for [`yaml_encoding_detect`].
+pub fn yaml_encoder_new<'r, R: BufRead + 'r>(reader: R, encoding: u8) -> Box<dyn Read + 'r> {
+	yaml::encoder_new(reader, encoding)
+}
+
+/// `Encoder::from_reader`.
+pub fn yaml_encoder_from_reader<'r, R: BufRead + 'r>(reader: R) -> io::Result<Box<dyn Read + 'r>> {
+	yaml::encoder_from_reader(reader)
+}
+
+/// Collects the output of the YAML `Chunker` over a reader: each document's
+/// text and whether it is a collection, or the error that ended iteration.
+pub fn yaml_chunks<R: Read>(reader: R) -> Vec<io::Result<(String, bool)>> {
+	yaml::chunks(reader)
+}
+
+/// The side of a failed transcode, with the original error values.
+pub enum TranscodeError<S, D> {
+	Ser(S, D),
+	De(D),
+}
+
+/// [`crate::transcode::transcode`] for caller-supplied Serde implementations.
+pub fn transcode<'de, S, D>(ser: S, de: D) -> Result<S::Ok, TranscodeError<S::Error, D::Error>>
+where
+	S: Serializer,
+	D: Deserializer<'de>,
+{
+	use crate::transcode::Error;
+	crate::transcode::transcode(ser, de).map_err(|err| match err {
+		Error::Ser(s, d) => TranscodeError::Ser(s, d),
+		Error::De(d) => TranscodeError::De(d),
+	})
+}
+
+/// Deserializes a [`crate::transcode::Value`] and serializes it again.
+pub fn value_roundtrip<'de, S, D>(ser: S, de: D) -> Result<Result<S::Ok, S::Error>, D::Error>
+where
+	S: Serializer,
+	D: Deserializer<'de>,
+{
+	let value = crate::transcode::Value::deserialize(de)?;
+	Ok(value.serialize(ser))
+}
